@@ -28,7 +28,8 @@
 #define F_LOCAL F_L6531
 #endif
 
-static unsigned char email_u[VF_N + 1];
+static unsigned char email_buf[VF_N + 1];
+static unsigned char *email_u = email_buf;
 #define email ((char *) email_u)
 
 static int flags(const eav_result_t *r) { return (r->is_ipv4 ? 1 : 0) + (r->is_ipv6 ? 1 : 0) + (r->is_domain ? 1 : 0); }
@@ -61,6 +62,9 @@ void harness(void)
 #ifdef VF_MIN_LEN
     VF_ASSUME(len >= VF_MIN_LEN);
 #endif
+#ifdef VF_TAIL_ALIGN     /* terminator = last byte of the object: a read past it is out of bounds */
+    email_u = email_buf + (VF_N - len);
+#endif
 #ifdef VF_FILL_FROM
     /* long family: positions [VF_FILL_FROM, VF_FILL_TO) all hold one symbolic non-structural byte */
     unsigned char fill = nondet_uchar();
@@ -68,12 +72,12 @@ void harness(void)
 #endif
     for (unsigned i = 0; i < VF_N; i++) {
 #ifdef VF_FILL_FROM
-        if (i >= VF_FILL_FROM && i < VF_FILL_TO) { email_u[i] = fill; continue; }
+        if (i >= VF_FILL_FROM && i < VF_FILL_TO) { if (i < len) email_u[i] = fill; continue; }
 #endif
-        email_u[i] = nondet_uchar();
-        if (i < len) VF_ASSUME(email[i] != 0);
+        unsigned char ch = nondet_uchar();
+        if (i < len) { VF_ASSUME(ch != 0); email_u[i] = ch; }
     }
-    email[len] = 0;
+    email_u[len] = 0;
     bool tld_check = nondet_bool();
     ls_base = email;
     ls_buflen = len;
